@@ -159,15 +159,28 @@ func (i *interpreter) pickNext(self *thread) *thread {
 		return nil
 	}
 	if i.cfg.Schedules && !i.killing && len(rs) > 1 {
-		selfRunnable := self != nil && !self.blocked && !self.done
-		if selfRunnable && i.preempts >= i.cfg.MaxPreempt {
-			return self // preemption budget used: switch only when the running thread blocks
+		// Delay-bounded exploration (Emmi, Qadeer, Rakamaric 2011): the default scheduler keeps the
+		// running thread, or the lowest-numbered runnable thread when it blocks; every deviation
+		// from that choice costs one unit of the budget.
+		def := rs[0]
+		if self != nil && !self.blocked && !self.done {
+			def = self
 		}
-		k := i.choose(len(rs), "sched")
-		if selfRunnable && rs[k] != self {
+		if i.preempts >= i.cfg.MaxPreempt {
+			return def
+		}
+		// alternatives: default first
+		order := []*thread{def}
+		for _, t := range rs {
+			if t != def {
+				order = append(order, t)
+			}
+		}
+		k := i.choose(len(order), "sched")
+		if k > 0 {
 			i.preempts++
 		}
-		return rs[k]
+		return order[k]
 	}
 	if self != nil && !self.blocked && !self.done {
 		return self
